@@ -2,9 +2,8 @@
    pattern's matches.  Statements only.
    PROVED here: termination of MultiLine::run for every input / matcher obeying the find_at
    contract / sink (the advance-by-one rule after an empty match is what makes it hold), and the
-   strategy selection.  NOT YET PROVED (tested by the correspondence model = code = ml_ref on every
-   run, see tools/props/C13.py): multi_line_run = ml_ref (Spec/MultiLineSpec.v), the full
-   statement of the property. *)
+   strategy selection; and, in the second part of this file, multi_line_run = ml_ref
+   (Spec/MultiLineSpec.v), the full statement of the property, with its corollaries. *)
 From RG Require Import Base.Bytes Model.Lines Model.SearcherCore Model.Glue Proofs.FuelProofs.
 
 (* 1. MultiLine::run always terminates: with the fuel the model gives its loops it never runs out
@@ -48,25 +47,33 @@ Example empty_matcher_terminates :
   = RunOk [EBegin; EMatched 0 (Some 1) [97; 10; 98; 10]%N; EFinish 4 None].
 Proof. vm_compute. reflexivity. Qed.
 
-(* Props/C13_MultiLine.v — property C13, the event-level statement (to be appended to Props/C13.v):
+(* Props/C13_MultiLine.v — property C13, the event-level statement (appended to Props/C13.v):
    MultiLine::run delivers exactly the events of the declarative multi-line reference ml_ref
    (Spec/MultiLineSpec.v).  Statements only; proofs in Proofs/MultiLineProofs.v (with
-   Proofs/MLGroup.v and Proofs/MLGeometry.v).
+   Proofs/MLGroup.v, Proofs/MLGeometry.v, Proofs/MLInvExt.v).
 
    PROVED, at full strength: for every input, every configuration SearcherBuilder::build can
    produce (passthru resets the context sizes) with binary detection off, every matcher obeying the
    find_at contract, and a sink that always continues (stopping sinks: property C16's prefix law),
        multi_line_run = ml_ref,
-   inverted or not, with any context sizes.
+   inverted or not, with any context sizes.  The inverted search looks for the next match from the
+   start of a line, not from the end of the previous match: for it the matcher must also be
+   find_at_mono (searching from a later position, up to the start of the match found, finds the
+   same match — true of every leftmost search over a fixed haystack); without it the statement is
+   refuted (multi_line_inverted_nonmono_refuted).
 
-   FINDING (repaired in crates/searcher/src/searcher/glue.rs MultiLine::sink, mirrored in
-   Model/Glue.v ml_sink; the pre-repair behaviour is pinned in Proofs/MLPinned.v):
-     printf 'a\nb\nc\n' | rg -U -B1 'a|\z'   printed line 3 as a context line of no match.
-   An empty match at the very end of an input that ends with the line terminator has the empty line
-   range [len, len); MultiLine::sink kept it as the pending range and the final flush of
-   MultiLine::run called sink_context for it (delivering the before-context lines) and only then
-   sink_matched, which refuses the empty range.  The repaired sink drops such a match.  ml_ref
-   needed no change: it already says that this match covers no line. *)
+   FINDINGS, both repaired in crates/searcher/src/searcher/glue.rs and mirrored in Model/Glue.v; the
+   pre-repair behaviour is pinned in Proofs/MLPinned.v:
+   1. printf 'a\nb\nc\n' | rg -U -B1 'a|\z'   printed line 3 as a context line of no match: an empty
+      match at the very end of an input that ends with the line terminator has the empty line range
+      [len, len); MultiLine::sink kept it as the pending range and the final flush called
+      sink_context for it.  The repaired sink drops such a match.
+   2. printf 'a\nbb\nc\n' | rg -U -v 'a\nb|b\nc'   reported line 3 although `rg -U` reports it as
+      matching: sink_matched_inverted resumed at the end of the LAST LINE of a match, so a match
+      starting on that line after the first one's end was never found.  The repaired function
+      keeps looking for matches starting before the end of the excluded lines; the reference for
+      the inverted search is now the property's own statement, the complement of the non-inverted
+      flags (the old flags are kept as inv_flags_pinned). *)
 From RG Require Import Base.Bytes Model.Lines Model.SearcherCore Model.Glue Spec.GrepSpec Spec.MultiLineSpec
   Proofs.LinesProofs Proofs.FuelProofs Proofs.MLGroup Proofs.MLGeometry Proofs.MultiLineProofs Proofs.MLPinned.
 
@@ -75,43 +82,52 @@ Theorem multi_line_eq_ref :
   forall (cfg : config) (M : matcher),
     c_binary cfg = BNone -> find_at_ok M ->
     (c_passthru cfg = true -> c_after cfg = 0) ->
+    (c_invert cfg = true -> find_at_mono M) ->
     forall s : bytes,
       multi_line_run cfg M (fun _ => Continue) s = RunOk (ml_ref cfg (m_find_at M) s).
 Proof. exact multi_line_eq_ref_proof. Qed.
 Print Assumptions multi_line_eq_ref.
 
-(* 5. the property text, non-inverted: there are blocks (i, j) of line indices such that
+(* 5. the property text, non-inverted.  ml_blocks: the line ranges (i, j) = lines i .. j-1 of the
+      successive leftmost non-overlapping matches over the whole input, merged when they touch or
+      overlap.
+      - line t lies in a block iff one of those matches overlaps it (MultiLineSpec.covers);
+      - blocks are disjoint, increasing and never adjacent;
       - the matched events are, in order, exactly one per non-empty block: the whole lines
-        i .. j-1 of the input as one slice, with the offset and the number of line i;
-      - line t lies in a block iff one of the successive leftmost non-overlapping matches over the
-        whole input overlaps it (MultiLineSpec.covers);
-      - blocks are disjoint, increasing and never adjacent (touching or overlapping line ranges were
-        merged): no line is reported twice, matched events are at least a line apart. *)
+        i .. j-1 as one slice of the input, with the offset and the number of line i;
+      - so no line is reported twice: matched events are at least a line apart. *)
+Theorem multi_line_blocks_are_the_overlapped_lines :
+  forall (cfg : config) (M : matcher), find_at_ok M ->
+    (c_passthru cfg = true -> c_after cfg = 0) ->
+    forall s : bytes,
+      let ltb := lt_byte (c_lt cfg) in
+      let L := split_lines ltb s in
+      (forall t, t < length L ->
+         flagf (ml_blocks cfg (m_find_at M) s) t =
+         existsb (covers (length s) (off ltb s t) (off ltb s (S t)) (lt_is_suffix (LTByte ltb) (nth t L [])))
+                 (ml_matches (m_find_at M) (S (length s)) s 0)) /\
+      sepb L 0 (ml_blocks cfg (m_find_at M) s).
+Proof. exact blocks_flags. Qed.
+Print Assumptions multi_line_blocks_are_the_overlapped_lines.
+
 Theorem multi_line_matched_blocks :
   forall (cfg : config) (M : matcher),
     c_binary cfg = BNone -> find_at_ok M -> c_invert cfg = false ->
     (c_passthru cfg = true -> c_after cfg = 0) ->
     forall s : bytes,
-      let ltb := lt_byte (c_lt cfg) in
-      let L := split_lines ltb s in
-      exists (blocks : list (nat * nat)) (evs : list event),
+      exists evs : list event,
         multi_line_run cfg M (fun _ => Continue) s = RunOk evs /\
-        filter is_em evs = map (bev cfg s) (filter nonemptyb blocks) /\
-        (forall t, t < length L ->
-           flagf blocks t =
-           existsb (covers (length s) (off ltb s t) (off ltb s (S t)) (lt_is_suffix (LTByte ltb) (nth t L [])))
-                   (ml_matches (m_find_at M) (S (length s)) s 0)) /\
-        sepb L 0 blocks /\ em_sorted 0 (filter is_em evs).
-Proof. intros cfg M Hb Hf Hi Hp s. exact (matched_blocks cfg M Hb Hf Hi Hp s). Qed.
+        filter is_em evs = map (bev cfg s) (filter nonemptyb (ml_blocks cfg (m_find_at M) s)) /\
+        em_sorted 0 (filter is_em evs).
+Proof. exact matched_blocks. Qed.
 Print Assumptions multi_line_matched_blocks.
 
-(* 6. the property text, inverted: the matched events are, in order, exactly the lines overlapped
-      by none of the successive matches of the inverted search (inv_matches: the next match from
-      the start of the first undecided line, resuming after the last line of that match) — each
-      such line as its own event (lev: its offset, its number, its bytes), each exactly once *)
+(* 6. the property text, inverted: every line NOT overlapped by a match of ml_matches — the same
+      matches as the non-inverted search — is delivered as its own match (lev t: its offset, its
+      number, its bytes), in order, exactly once, and no other line is *)
 Theorem multi_line_inverted_lines :
   forall (cfg : config) (M : matcher),
-    c_binary cfg = BNone -> find_at_ok M -> c_invert cfg = true ->
+    c_binary cfg = BNone -> find_at_ok M -> find_at_mono M -> c_invert cfg = true ->
     (c_passthru cfg = true -> c_after cfg = 0) ->
     forall s : bytes,
       let ltb := lt_byte (c_lt cfg) in
@@ -121,13 +137,32 @@ Theorem multi_line_inverted_lines :
         filter is_em evs =
         map (lev cfg s)
             (filter (fun t => negb (existsb (covers (length s) (off ltb s t) (off ltb s (S t))
-                                               (lt_is_suffix (LTByte ltb) (nth t L []))) (inv_matches cfg M s)))
+                                               (lt_is_suffix (LTByte ltb) (nth t L [])))
+                                            (ml_matches (m_find_at M) (S (length s)) s 0)))
                     (seq 0 (length L))).
-Proof. intros cfg M Hb Hf Hi Hp s. exact (inverted_lines cfg M Hb Hf Hi Hp s). Qed.
+Proof. exact inverted_lines. Qed.
 Print Assumptions multi_line_inverted_lines.
 
-(* 7. the dropped match is narrow: ml_dangling (some successive match has an empty line range) holds
-      only for an empty match at the very end of an input that ends with the terminator *)
+(* 6a. line t is delivered by the inverted search iff it is not inside a block of the non-inverted
+       search *)
+Theorem inverted_is_complement :
+  forall (cfg : config) (M : matcher),
+    c_binary cfg = BNone -> find_at_ok M -> find_at_mono M -> c_invert cfg = true ->
+    (c_passthru cfg = true -> c_after cfg = 0) ->
+    forall s : bytes,
+      let L := split_lines (lt_byte (c_lt cfg)) s in
+      exists evs : list event,
+        multi_line_run cfg M (fun _ => Continue) s = RunOk evs /\
+        filter is_em evs =
+          map (lev cfg s) (filter (fun t => negb (flagf (ml_blocks cfg (m_find_at M) s) t)) (seq 0 (length L))) /\
+        (forall t, t < length L ->
+           (In (lev cfg s t) (filter is_em evs) <-> flagf (ml_blocks cfg (m_find_at M) s) t = false)).
+Proof. exact MultiLineProofs.inverted_is_complement. Qed.
+Print Assumptions inverted_is_complement.
+
+(* 7. the match the repaired sink drops is narrow: ml_dangling (some successive match has an empty
+      line range) holds only for an empty match at the very end of an input that ends with the
+      terminator *)
 Theorem dangling_only_at_end :
   forall (cfg : config) (M : matcher), find_at_ok M -> forall s : bytes,
     ml_dangling cfg (m_find_at M) s = true ->
@@ -159,6 +194,35 @@ Proof.
     cbn [andb]; intro H; try discriminate. injection H as <- <-. lia.
 Qed.
 Print Assumptions tab_matcher_ok.
+
+
+(* the leftmost match among a list of matches: obeys the contract and is find_at_mono *)
+Definition list_matcher (ms : list (nat * nat)) : matcher :=
+  {| m_is_match := fun _ => true; m_find_candidate := fun _ => None; m_line_term := None;
+     m_nonmatching := fun _ => false;
+     m_find_at := fun s p =>
+       find (fun m : nat * nat => Nat.leb p (fst m) && Nat.leb (fst m) (snd m) && Nat.leb (snd m) (length s)) ms |}.
+
+Lemma list_matcher_ok ms : find_at_ok (list_matcher ms).
+Proof.
+  intros s p a b H. cbn [m_find_at list_matcher] in H. apply find_some in H as [_ H]. cbn [fst snd] in H.
+  destruct (Nat.leb_spec p a); destruct (Nat.leb_spec a b); destruct (Nat.leb_spec b (length s)); try discriminate. lia.
+Qed.
+Print Assumptions list_matcher_ok.
+
+Lemma list_matcher_mono ms : find_at_mono (list_matcher ms).
+Proof.
+  intros s p p' Hp. cbn [m_find_at list_matcher].
+  induction ms as [|[a b] r IH]; [reflexivity|]. cbn [find fst snd].
+  destruct (Nat.leb p a && Nat.leb a b && Nat.leb b (length s)) eqn:E1.
+  - intro Hpa. apply andb_true_iff in E1 as [E1 E3]. apply andb_true_iff in E1 as [E1 E2].
+    rewrite E2, E3. destruct (Nat.leb_spec p' a); [reflexivity|lia].
+  - assert (E2 : Nat.leb p' a && Nat.leb a b && Nat.leb b (length s) = false).
+    { destruct (Nat.leb_spec p' a) as [H|H]; [|reflexivity].
+      destruct (Nat.leb_spec p a) as [H'|H']; [exact E1|lia]. }
+    rewrite E2. exact IH.
+Qed.
+Print Assumptions list_matcher_mono.
 
 (* 'a|\z' on "a\nb\nc\n": (0,1), then the empty match at 6 *)
 Definition t_az : list (option (nat * nat)) := [Some (0, 1); Some (6, 6)].
@@ -195,6 +259,43 @@ Proof.
 Qed.
 Print Assumptions multi_line_passthru_after_refuted.
 
+(* 'a\nb|b\nc' on "a\nbb\nc\n": the matches (0,3) and (3,6) overlap all three lines; the PRE-REPAIR
+   inverted search (Proofs/MLPinned.v) reported line 3, the repaired one reports nothing, as the
+   reference says; the non-inverted search reports the three lines as one block *)
+Definition s_abbc : bytes := [97; 10; 98; 98; 10; 99; 10]%N.
+Definition m_ab_bc : matcher := list_matcher [(0, 3); (3, 6)].
+
+Theorem multi_line_inverted_pinned_refuted :
+  exists (cfg : config) (M : matcher) (s : bytes),
+    c_binary cfg = BNone /\ find_at_ok M /\ find_at_mono M /\ c_invert cfg = true /\
+    multi_line_run_pinned cfg M (fun _ => Continue) s
+      = RunOk [EBegin; EMatched 5 (Some 3) [99; 10]%N; EFinish 7 None] /\
+    ml_ref cfg (m_find_at M) s = [EBegin; EFinish 7 None] /\
+    multi_line_run cfg M (fun _ => Continue) s = RunOk (ml_ref cfg (m_find_at M) s) /\
+    multi_line_run (cfg_ex false 0 0 false) M (fun _ => Continue) s
+      = RunOk [EBegin; EMatched 0 (Some 1) s; EFinish 7 None].
+Proof.
+  exists (cfg_ex true 0 0 false), m_ab_bc, s_abbc.
+  split; [reflexivity|]. split; [apply list_matcher_ok|]. split; [apply list_matcher_mono|]. split; [reflexivity|].
+  split; [vm_compute; reflexivity|]. split; [vm_compute; reflexivity|]. split; vm_compute; reflexivity.
+Qed.
+Print Assumptions multi_line_inverted_pinned_refuted.
+
+(* find_at_mono is needed for the inverted search: a matcher that answers None from position 1 but
+   finds (2,3) from position 2 makes the inverted search (which asks again from the start of line 2)
+   exclude line 2, while the successive matches of the non-inverted search are just (0,1) *)
+Theorem multi_line_inverted_nonmono_refuted :
+  exists (cfg : config) (M : matcher) (s : bytes),
+    c_binary cfg = BNone /\ find_at_ok M /\ c_invert cfg = true /\
+    multi_line_run cfg M (fun _ => Continue) s = RunOk [EBegin; EFinish 4 None] /\
+    ml_ref cfg (m_find_at M) s = [EBegin; EMatched 2 (Some 2) [98; 10]%N; EFinish 4 None].
+Proof.
+  exists (cfg_ex true 0 0 false), (tab_matcher [Some (0, 1); None; Some (2, 3)]), [97; 10; 98; 10]%N.
+  split; [reflexivity|]. split; [apply tab_matcher_ok|]. split; [reflexivity|].
+  split; vm_compute; reflexivity.
+Qed.
+Print Assumptions multi_line_inverted_nonmono_refuted.
+
 (* ------------------------------------------------------------------ non-vacuity *)
 (* "ab\ncd\nef\ngh\nij": matches (1,4) spanning a terminator, (4,5) in the last line of the first
    (overlap after locating), (6,7) in the next line (touching: merged), then the empty match at the
@@ -215,18 +316,18 @@ Example ml_example_blocks_is_ref :
   multi_line_run (cfg_ex false 1 1 false) (tab_matcher t_ex) (fun _ => Continue) s_ex
   = RunOk (ml_ref (cfg_ex false 1 1 false) (m_find_at (tab_matcher t_ex)) s_ex).
 Proof.
-  apply multi_line_eq_ref; [reflexivity|apply tab_matcher_ok|discriminate].
+  apply multi_line_eq_ref; [reflexivity|apply tab_matcher_ok|discriminate|discriminate].
 Qed.
 
 (* inverted: the lines not overlapped by a match, one event per line, with before-context *)
 Example ml_example_inverted :
-  multi_line_run (cfg_ex true 0 1 false) (tab_matcher [Some (4, 7)]) (fun _ => Continue) s_ex
+  multi_line_run (cfg_ex true 0 1 false) (list_matcher [(4, 7)]) (fun _ => Continue) s_ex
   = RunOk [EBegin; EMatched 0 (Some 1) [97; 98; 10]%N; EBreak;
            EContext CBefore 6 (Some 3) [101; 102; 10]%N;
            EMatched 9 (Some 4) [103; 104; 10]%N; EMatched 12 (Some 5) [105; 106]%N; EFinish 14 None]
-  /\ multi_line_run (cfg_ex true 0 1 false) (tab_matcher [Some (4, 7)]) (fun _ => Continue) s_ex
-     = RunOk (ml_ref (cfg_ex true 0 1 false) (m_find_at (tab_matcher [Some (4, 7)])) s_ex).
+  /\ multi_line_run (cfg_ex true 0 1 false) (list_matcher [(4, 7)]) (fun _ => Continue) s_ex
+     = RunOk (ml_ref (cfg_ex true 0 1 false) (m_find_at (list_matcher [(4, 7)])) s_ex).
 Proof.
   split; [vm_compute; reflexivity|].
-  apply multi_line_eq_ref; [reflexivity|apply tab_matcher_ok|discriminate].
+  apply multi_line_eq_ref; [reflexivity|apply list_matcher_ok|discriminate|intros _; apply list_matcher_mono].
 Qed.
